@@ -233,4 +233,16 @@ def options_forwarded(F, R):
                     rhs = strip(n["rhs"])
                     # accept `gap`, `Some(limit)`: a local or a wrapper of a local, no arithmetic/clamping
                     ok = rhs.get("k") == "Path" or (rhs.get("k") == "Call" and rhs.get("dk") == "Variant" and all(strip(a).get("k") == "Path" for a in rhs["args"]))
-                    R.ob("OPT-FORWARD", "%s:%s" % (f["path"], l["name"]), ok, F.loc(f, n), "SolveOptions.%s = %s (must be the caller's value unmodified; validation is microlp's documented job)" % (l["name"], sexp(rhs)))
+                    # ... and that local is bound straight from a field of the caller's options: no adapter (filter, map,
+                    # max, clamp ...) between the caller's value and the solver, otherwise invalid values are silently
+                    # repaired or dropped instead of being rejected
+                    lf = LocalFlow(f["body"])
+                    src = []
+                    for i in free_locals(rhs):
+                        for d in lf.defs.get(i, []):
+                            d = strip(d)
+                            while d.get("k") == "MCall" and d["name"] in ("clone", "copied", "cloned", "as_ref") and not d["args"]:
+                                d = strip(d["recv"])
+                            src.append(d)
+                    direct = bool(src) and all(d.get("k") == "Field" and strip(d["a"]).get("k") == "Path" for d in src)
+                    R.ob("OPT-FORWARD", "%s:%s" % (f["path"], l["name"]), ok and direct, F.loc(f, n), "SolveOptions.%s = %s, bound from %s (must be the caller's option field unmodified; validation is microlp's documented job)" % (l["name"], sexp(rhs), [sexp(d) for d in src]))
